@@ -1,11 +1,15 @@
 //@@ include ../common/prelude.rs
 // Unit `tok` — property C16 (HTML tokenizer lossless and total), feeds C07 (no panic / termination)
+use std::result;
 use crate::TokenType::{CommentToken, DoctypeToken, EndTagToken, ErrorToken, SelfClosingTagToken, StartTagToken, TextToken};
 verus! {
 
 #[verifier::external_type_specification]
 #[verifier::external_body]
 pub struct ExIoError(std::io::Error);
+#[verifier::external_type_specification]
+#[verifier::external_body]
+pub struct ExFromUtf8Error(std::string::FromUtf8Error);
 
 // ---------------------------------------------------------------- assumed std specs (trusted, listed)
 pub open spec fn ascii_alpha(c: char) -> bool { ('a' <= c && c <= 'z') || ('A' <= c && c <= 'Z') }
@@ -15,13 +19,34 @@ pub assume_specification [u8::is_ascii_uppercase] (c: &u8) -> (r: bool)
     ensures r == (65 <= *c <= 90);
 pub assume_specification<'b> [<std::string::String as PartialEq<&str>>::eq] (a: &std::string::String, b: &&str) -> (r: bool)
     ensures r == (a@ == b@);
+// text(): NUL replacement is specified only as "returns" (no panic); results unconstrained
+pub assume_specification<P: std::str::pattern::Pattern> [str::contains] (s: &str, p: P) -> bool;
+pub assume_specification<P: std::str::pattern::Pattern> [str::replace] (s: &str, p: P, to: &str) -> std::string::String;
 pub assume_specification [std::string::String::len] (s: &std::string::String) -> (r: usize)
     ensures r == vstd::utf8::encode_utf8(s@).len();
 pub assume_specification [std::string::String::as_bytes] (s: &std::string::String) -> (r: &[u8])
     ensures r@ == vstd::utf8::encode_utf8(s@);
+pub open spec fn vec_cloned<T: Clone>(a: Seq<T>, b: Seq<T>) -> bool {
+    a.len() == b.len() && forall|i: int| 0 <= i < a.len() ==> cloned::<T>(#[trigger] a[i], b[i])
+}
 pub assume_specification<T: Clone> [<[T]>::to_vec] (s: &[T]) -> (r: std::vec::Vec<T>)
-    ensures r@.len() == s@.len(), forall|i: int| 0 <= i < s@.len() ==> cloned::<T>(#[trigger] s@[i], r@[i]);
+    ensures vec_cloned(s@, r@);
+pub broadcast proof fn lemma_vec_cloned_u8(a: Seq<u8>, b: Seq<u8>)
+    requires #[trigger] vec_cloned(a, b),
+    ensures a == b,
+{
+    assert(a =~= b);
+}
 
+//@@ item src/html/error.rs :: enum HtmlParseError
+//@@ item src/html/error.rs :: type Result
+impl vstd::std_specs::convert::FromSpecImpl<std::string::FromUtf8Error> for HtmlParseError {
+    open spec fn obeys_from_spec() -> bool { false }
+    open spec fn from_spec(v: std::string::FromUtf8Error) -> Self { HtmlParseError::FromUtf8Error(v) }
+}
+impl From<std::string::FromUtf8Error> for HtmlParseError {
+    //@@ fn src/html/error.rs :: impl From<std::string::FromUtf8Error> for HtmlParseError / fn from
+}
 //@@ item src/html/mod.rs :: enum TokenType
 //@| opt keepattrs
 //@@ item src/html/mod.rs :: struct Error
@@ -39,10 +64,58 @@ impl Clone for Span {
 pub open spec fn is_ws(b: u8) -> bool { b == 32 || b == 10 || b == 13 || b == 9 || b == 12 }
 pub open spec fn span_ok(s: Span, n: int) -> bool { s.start <= s.end <= n }
 
+pub open spec fn lower_byte(b: u8) -> u8 { if 65 <= b <= 90 { (b + 32) as u8 } else { b } }
+// the byte span equals the (lower-case) name modulo ASCII case
+pub open spec fn ci_match(b: Seq<u8>, t: Seq<u8>) -> bool {
+    b.len() == t.len() && forall|i: int| 0 <= i < b.len() ==> lower_byte(#[trigger] b[i]) == t[i]
+}
+
+#[verifier::opaque]
+pub open spec fn raw_name(t: Seq<u8>) -> bool { t.len() <= 9 && forall|i: int| 0 <= i < t.len() ==> 97 <= #[trigger] t[i] <= 122 }
+pub open spec fn raw_span(b: Seq<u8>) -> bool { b.len() <= 9 && forall|i: int| 0 <= i < b.len() ==> 97 <= lower_byte(#[trigger] b[i]) <= 122 }
+
+// ---- assumed facts about std (trusted, listed)
+pub uninterp spec fn spec_lower(s: Seq<char>) -> Seq<char>;
+pub assume_specification [str::to_lowercase] (s: &str) -> (r: std::string::String)
+    ensures r@ == spec_lower(s@);
+pub assume_specification [std::string::String::from_utf8] (v: std::vec::Vec<u8>) -> (r: std::result::Result<std::string::String, std::string::FromUtf8Error>)
+    ensures r.is_ok() == vstd::utf8::valid_utf8(v@), r matches Ok(s) ==> vstd::utf8::encode_utf8(s@) == v@;
+// AXIOM (str::to_lowercase on ASCII letters): if the UTF-8 bytes of s are ASCII letters, the UTF-8 bytes of
+// s.to_lowercase() are those bytes lower-cased
+pub open spec fn lower_bytes(b: Seq<u8>) -> Seq<u8> { b.map_values(|x: u8| lower_byte(x)) }
+#[verifier::external_body]
+pub proof fn axiom_to_lowercase_ascii_letters()
+    ensures forall|s: Seq<char>| raw_span(vstd::utf8::encode_utf8(s)) ==> vstd::utf8::encode_utf8(#[trigger] spec_lower(s)) == lower_bytes(vstd::utf8::encode_utf8(s)),
+{}
+pub proof fn lemma_names_ok()
+    ensures raw_name(vstd::utf8::encode_utf8("iframe"@)), raw_name(vstd::utf8::encode_utf8("noembed"@)), raw_name(vstd::utf8::encode_utf8("noframes"@)),
+        raw_name(vstd::utf8::encode_utf8("noscript"@)), raw_name(vstd::utf8::encode_utf8("plaintext"@)), raw_name(vstd::utf8::encode_utf8("script"@)),
+        raw_name(vstd::utf8::encode_utf8("style"@)), raw_name(vstd::utf8::encode_utf8("textarea"@)), raw_name(vstd::utf8::encode_utf8("title"@)),
+        raw_name(vstd::utf8::encode_utf8("xmp"@)),
+{
+    reveal(raw_name);
+    lit_iframe(); lit_noembed(); lit_noframes(); lit_noscript(); lit_plaintext(); lit_script(); lit_style(); lit_textarea(); lit_title(); lit_xmp();
+}
+pub proof fn lemma_raw_span_lower(b: Seq<u8>)
+    requires raw_span(b),
+    ensures lower_bytes(b).len() <= 9, forall|i: int| 0 <= i < lower_bytes(b).len() ==> 97 <= #[trigger] lower_bytes(b)[i] <= 122,
+{}
+
+// every saved attribute span lies inside the buffer (opaque: preserved by frame equalities, revealed where attributes change)
+#[verifier::opaque]
+pub open spec fn attrs_ok_f(a: Seq<[Span; 2]>, n: int) -> bool {
+    forall|i: int| 0 <= i < a.len() ==> span_ok(#[trigger] a[i][0], n) && span_ok(a[i][1], n)
+}
+// the raw-text tag is empty or a lower-case ASCII name of at most 9 bytes
+#[verifier::opaque]
+pub open spec fn tag_ok_f(t: Seq<char>) -> bool {
+    &&& vstd::utf8::encode_utf8(t).len() <= 9
+    &&& forall|i: int| 0 <= i < vstd::utf8::encode_utf8(t).len() ==> 97 <= #[trigger] vstd::utf8::encode_utf8(t)[i] <= 122
+}
+
 impl Tokenizer {
-    pub open spec fn attrs_ok(&self) -> bool {
-        forall|i: int| 0 <= i < self.attribute@.len() ==> span_ok(#[trigger] self.attribute@[i][0], self.reader.len() as int) && span_ok(self.attribute@[i][1], self.reader.len() as int)
-    }
+    pub open spec fn data_bytes(&self) -> Seq<u8> { self.reader@.subrange(self.data.start as int, self.data.end as int) }
+    pub open spec fn attrs_ok(&self) -> bool { attrs_ok_f(self.attribute@, self.reader.len() as int) }
     // invariant that holds at every call boundary inside the tokenizer
     pub open spec fn wf(&self) -> bool {
         &&& self.raw.start <= self.raw.end <= self.reader.len()
@@ -51,12 +124,14 @@ impl Tokenizer {
         &&& self.number_attribute_returned <= self.attribute@.len()
         &&& self.tag_ok()
     }
-    pub open spec fn tag_bytes(&self) -> Seq<u8> { vstd::utf8::encode_utf8(self.raw_tag@) }
-    // the raw-text tag is empty or a lower-case ASCII name of at most 9 bytes
-    pub open spec fn tag_ok(&self) -> bool {
-        &&& self.tag_bytes().len() <= 9
-        &&& forall|i: int| 0 <= i < self.tag_bytes().len() ==> 97 <= #[trigger] self.tag_bytes()[i] <= 122
+    // invariant at the public API boundary (between calls of next / accessors)
+    pub open spec fn pub_wf(&self) -> bool {
+        &&& self.wf()
+        &&& self.raw.start <= self.data.start <= self.data.end <= self.raw.end
     }
+    pub open spec fn is_tag_token(&self) -> bool { self.token == StartTagToken || self.token == EndTagToken || self.token == SelfClosingTagToken }
+    pub open spec fn tag_bytes(&self) -> Seq<u8> { vstd::utf8::encode_utf8(self.raw_tag@) }
+    pub open spec fn tag_ok(&self) -> bool { tag_ok_f(self.raw_tag@) }
     pub open spec fn in_script(&self) -> bool { self.raw_tag@ == "script"@ }
     // everything except the read position, the error flag and the data span is unchanged
     pub open spec fn frame(&self, o: &Tokenizer) -> bool {
@@ -149,6 +224,8 @@ impl Tokenizer {
     //@|     final(self).data.start == old(self).raw.end - 1, final(self).data.start < final(self).data.end <= final(self).raw.end,
     //@|     final(self).number_attribute_returned == 0,
     //@|     !save_attr ==> final(self).attribute@.len() == 0,
+    //@| entry proof { reveal(attrs_ok_f); }
+    //@| loophead 0: proof { reveal(attrs_ok_f); }
     //@| loop 0: invariant self.wf(), self.err.is_none(), self.reader == old(self).reader, self.raw.start == old(self).raw.start, self.raw_tag == old(self).raw_tag,
     //@|         self.token == old(self).token, self.raw.end >= old(self).raw.end,
     //@|         self.data.start == old(self).raw.end - 1, self.data.start < self.data.end <= self.raw.end,
@@ -169,7 +246,7 @@ impl Tokenizer {
     //@| requires old(self).wf(), old(self).raw.start <= old(self).data.start <= old(self).raw.end, old(self).err.is_none() ==> old(self).data.start == old(self).raw.end,
     //@| ensures final(self).wf(), final(self).frame(old(self)),
     //@|     final(self).raw.end >= old(self).raw.end,
-    //@|     r ==> final(self).raw.end >= old(self).raw.end + 7 && final(self).data.start <= final(self).data.end <= final(self).raw.end,
+    //@|     r ==> final(self).raw.end >= old(self).raw.end + 7 && old(self).data.start <= final(self).data.start <= final(self).data.end <= final(self).raw.end,
     //@|     !r ==> final(self).data.start == old(self).data.start,
     //@|     !r && final(self).err.is_none() ==> final(self).raw.end == old(self).raw.end,
     //@|     !r && final(self).err.is_some() ==> final(self).data.end == final(self).raw.end,
@@ -184,7 +261,7 @@ impl Tokenizer {
     //@| requires old(self).wf(), old(self).raw.start <= old(self).data.start <= old(self).raw.end, old(self).err.is_none() ==> old(self).data.start == old(self).raw.end,
     //@| ensures final(self).wf(), final(self).frame(old(self)),
     //@|     final(self).raw.end >= old(self).raw.end,
-    //@|     r ==> final(self).raw.end >= old(self).raw.end + 7 && final(self).data.start <= final(self).data.end <= final(self).raw.end,
+    //@|     r ==> final(self).raw.end >= old(self).raw.end + 7 && old(self).data.start <= final(self).data.start <= final(self).data.end <= final(self).raw.end,
     //@|     !r ==> final(self).data.start == old(self).data.start,
     //@|     !r && final(self).err.is_none() ==> final(self).raw.end == old(self).raw.end,
     //@|     !r && final(self).err.is_some() ==> final(self).data.end == final(self).raw.end,
@@ -194,7 +271,7 @@ impl Tokenizer {
     //@|         cdata@ == "[CDATA["@,
     //@| loophead 0: proof { lit_x5b43444154415b(); }
     //@| loopend 0: proof { lit_x5b43444154415b(); }
-    //@| loop 1: invariant self.wf(), self.frame(old(self)), self.err.is_none(), self.raw.end >= old(self).raw.end + 7, self.data.start <= self.raw.end,
+    //@| loop 1: invariant self.wf(), self.frame(old(self)), self.err.is_none(), self.raw.end >= old(self).raw.end + 7, old(self).data.start <= self.data.start <= self.raw.end,
     //@|         brackets <= self.raw.end - self.data.start,
     //@|     decreases self.left(),
 
@@ -203,7 +280,7 @@ impl Tokenizer {
     //@| ensures final(self).wf(), final(self).reader == old(self).reader, final(self).raw.start == old(self).raw.start, final(self).raw_tag == old(self).raw_tag,
     //@|     final(self).attribute == old(self).attribute, final(self).number_attribute_returned == old(self).number_attribute_returned,
     //@|     final(self).raw.end >= old(self).raw.end,
-    //@|     final(self).data.start <= final(self).data.end <= final(self).raw.end,
+    //@|     old(self).raw.end <= final(self).data.start <= final(self).data.end <= final(self).raw.end,
     //@|     r == CommentToken || r == DoctypeToken || r == TextToken,
 
     //@@ fn src/html/mod.rs :: impl Tokenizer / fn read_raw_end_tag -> r
@@ -211,8 +288,11 @@ impl Tokenizer {
     //@| ensures final(self).wf(), final(self).frame(old(self)), final(self).data == old(self).data,
     //@|     r ==> final(self).err.is_none() && final(self).raw.end == old(self).raw.end - 2 && old(self).raw.end + old(self).tag_bytes().len() + 1 <= old(self).reader.len(),
     //@|     !r ==> final(self).raw.end >= old(self).raw.end,
+    //@| entry proof { reveal(tag_ok_f); }
     //@| loop 0: invariant self.wf(), self.frame(old(self)), self.data == old(self).data, self.err.is_none(), self.raw.end == old(self).raw.end + i,
     //@|         old(self).raw.end >= old(self).raw.start + 2,
+    //@| loophead 0: proof { reveal(tag_ok_f); }
+    //@| loopend 0: proof { reveal(tag_ok_f); }
 
     //@@ fn src/html/mod.rs :: impl Tokenizer / fn read_script_data
     //@| requires old(self).wf(), old(self).err.is_none(), old(self).in_script(),
@@ -307,10 +387,163 @@ impl Tokenizer {
     //@|     final(self).attribute == old(self).attribute, final(self).number_attribute_returned == old(self).number_attribute_returned,
     //@|     final(self).data.start == old(self).data.start, final(self).data.end == final(self).raw.end,
     //@|     final(self).raw_tag@.len() == 0,
-    //@| entry proof { lit_empty(); lit_script(); }
+    //@| entry proof { lit_empty(); lit_script(); reveal(tag_ok_f); }
+    //@| loopend 0: proof { reveal(tag_ok_f); lit_empty(); }
     //@| loop 0: invariant_except_break self.err.is_none(),
     //@|     invariant self.wf(), self.frame(old(self)), self.data == old(self).data,
     //@|     decreases self.left(),
+
+    //@@ fn src/html/mod.rs :: impl Tokenizer / fn start_tag_in -> r
+    //@| opt r5:0
+    //@| attr #[verifier::loop_isolation(false)]
+    //@| requires self.data.start <= self.data.end <= self.reader.len(),
+    //@|     forall|k: int| 0 <= k < ss@.len() ==> raw_name(vstd::utf8::encode_utf8(#[trigger] ss@[k]@)),
+    //@| ensures r ==> exists|k: int| 0 <= k < ss@.len() && ci_match(self.data_bytes(), vstd::utf8::encode_utf8(#[trigger] ss@[k]@)),
+    //@|     r ==> raw_span(self.data_bytes()),
+    //@| loopbefore 0: let ghost ss0 = ss@;
+    //@| before `return true;`: proof { reveal(raw_name); }
+    //@| loop 0: invariant 0 <= vf_it0_idx <= vf_it0_rem0.len(), vf_it0.remaining() == vf_it0_rem0.skip(vf_it0_idx), vf_it0_rem0 == ss0,
+    //@|         self.data.start <= self.data.end <= self.reader.len(),
+    //@|         forall|k: int| 0 <= k < ss0.len() ==> raw_name(vstd::utf8::encode_utf8(#[trigger] ss0[k]@)),
+    //@|     decreases ss0.len() - vf_it0_idx,
+    //@| loop 1: invariant self.data.start <= self.data.end <= self.reader.len(), self.data.end - self.data.start == vstd::utf8::encode_utf8(s@).len(),
+    //@|         forall|j: int| 0 <= j < i ==> lower_byte(#[trigger] self.data_bytes()[j]) == vstd::utf8::encode_utf8(s@)[j],
+
+    //@@ fn src/html/mod.rs :: impl Tokenizer / fn read_start_tag -> r
+    //@| requires old(self).wf(), old(self).err.is_none(), old(self).raw.end >= old(self).raw.start + 2,
+    //@| ensures final(self).wf(), final(self).reader == old(self).reader, final(self).raw.start == old(self).raw.start, final(self).token == old(self).token,
+    //@|     final(self).raw.end >= old(self).raw.end,
+    //@|     old(self).raw.end - 1 <= final(self).data.start < final(self).data.end <= final(self).raw.end,
+    //@|     r matches Ok(t) ==> (t == ErrorToken || t == StartTagToken || t == SelfClosingTagToken),
+    //@|     r matches Ok(t) ==> (t == ErrorToken ==> final(self).err.is_some()),
+    //@| entry broadcast use lemma_vec_cloned_u8; proof { lemma_names_ok(); reveal(tag_ok_f); }
+    //@| after `self.raw_tag = String::from_utf8(self.reader[self.data.start..self.data.end].to_vec())?.to_lowercase();`: proof { axiom_to_lowercase_ascii_letters(); lemma_raw_span_lower(self.data_bytes()); }
+
+    //@@ fn src/html/mod.rs :: impl Tokenizer / fn next -> r
+    //@| requires old(self).wf(),
+    //@| ensures final(self).pub_wf(), final(self).reader == old(self).reader,
+    //@|     final(self).raw.start == old(self).raw.end,
+    //@|     r matches Ok(t) ==> t == final(self).token && t != TokenType::NoneToken,
+    //@|     r matches Ok(t) ==> (t != ErrorToken ==> final(self).raw.start < final(self).raw.end),
+    //@|     r matches Ok(t) ==> (t == ErrorToken ==> final(self).err.is_some()),
+    //@|     r matches Ok(t) ==> (final(self).is_tag_token() ==> final(self).data.start < final(self).data.end),
+    //@|     old(self).err.is_some() ==> r.is_ok() && final(self).raw.end == old(self).raw.end,
+    //@| entry proof { lit_plaintext(); lit_empty(); }
+    //@| loop 0: invariant self.wf(), self.reader == old(self).reader, self.raw.start == old(self).raw.end, self.data.start == self.raw.start, self.data.end == self.raw.start,
+    //@|         old(self).err.is_none(),
+    //@|     decreases self.left() + (if self.err.is_none() { 1int } else { 0int }),
+    //@| loop 1: invariant self.wf(), self.reader == old(self).reader, self.raw.start == old(self).raw.end, self.data.start == self.raw.start, self.data.start <= self.data.end <= self.raw.end,
+    //@|         old(self).err.is_none(),
+    //@|     ensures self.err.is_some(),
+    //@|     decreases self.left(),
+
+    //@@ fn src/html/mod.rs :: impl Tokenizer / fn buffered -> r
+    //@| requires self.wf(),
+    //@| ensures r@ == self.reader@.subrange(self.raw.end as int, self.reader.len() as int),
+    //@| entry broadcast use lemma_vec_cloned_u8;
+
+    //@@ fn src/html/mod.rs :: impl Tokenizer / fn buffered_as_string -> r
+    //@| requires self.wf(),
+    //@| ensures r.is_ok() == vstd::utf8::valid_utf8(self.reader@.subrange(self.raw.end as int, self.reader.len() as int)),
+    //@|     r matches Ok(s) ==> vstd::utf8::encode_utf8(s@) == self.reader@.subrange(self.raw.end as int, self.reader.len() as int),
+
+    //@@ fn src/html/mod.rs :: impl Tokenizer / fn raw -> r
+    //@| requires self.wf(),
+    //@| ensures r@ == self.reader@.subrange(self.raw.start as int, self.raw.end as int),
+    //@| entry broadcast use lemma_vec_cloned_u8;
+
+    //@@ fn src/html/mod.rs :: impl Tokenizer / fn raw_as_string -> r
+    //@| requires self.wf(),
+    //@| ensures r.is_ok() == vstd::utf8::valid_utf8(self.reader@.subrange(self.raw.start as int, self.raw.end as int)),
+    //@|     r matches Ok(s) ==> vstd::utf8::encode_utf8(s@) == self.reader@.subrange(self.raw.start as int, self.raw.end as int),
+
+    //@@ fn src/html/mod.rs :: impl Tokenizer / fn tag_name -> r
+    //@| requires old(self).pub_wf(),
+    //@| ensures final(self).pub_wf(), final(self).reader == old(self).reader, final(self).raw == old(self).raw, final(self).token == old(self).token,
+    //@|     final(self).attribute == old(self).attribute, final(self).number_attribute_returned == old(self).number_attribute_returned,
+    //@|     vstd::utf8::valid_utf8(old(self).data_bytes()) ==> r.is_ok(),
+    //@|     r matches Ok(p) ==> (p.0.is_some() == (old(self).data.start < old(self).data.end && old(self).is_tag_token())),
+    //@|     r matches Ok(p) ==> p.1 == (p.0.is_some() && old(self).number_attribute_returned < old(self).attribute@.len()),
+    //@| entry broadcast use lemma_vec_cloned_u8;
+
+    //@@ fn src/html/mod.rs :: impl Tokenizer / fn tag_attr -> r
+    //@| requires old(self).pub_wf(),
+    //@| ensures final(self).pub_wf(), final(self).reader == old(self).reader, final(self).raw == old(self).raw, final(self).token == old(self).token,
+    //@|     final(self).attribute == old(self).attribute, final(self).data == old(self).data,
+    //@|     final(self).number_attribute_returned >= old(self).number_attribute_returned,
+    //@|     r matches Ok(p) ==> (p.2 ==> final(self).number_attribute_returned == old(self).number_attribute_returned + 1 && final(self).number_attribute_returned < final(self).attribute@.len()),
+    //@| entry broadcast use lemma_vec_cloned_u8; proof { reveal(attrs_ok_f); }
+
+    //@@ fn src/html/mod.rs :: impl Tokenizer / fn text -> r
+    //@| requires old(self).pub_wf(),
+    //@| ensures final(self).pub_wf(), final(self).reader == old(self).reader, final(self).raw == old(self).raw, final(self).token == old(self).token,
+    //@|     final(self).attribute == old(self).attribute, final(self).number_attribute_returned == old(self).number_attribute_returned,
+    //@|     vstd::utf8::valid_utf8(old(self).data_bytes()) ==> r.is_ok(),
+    //@| entry broadcast use lemma_vec_cloned_u8;
+
+    //@@ fn src/html/mod.rs :: impl Tokenizer / fn token -> r
+    //@| requires old(self).pub_wf(),
+    //@| ensures final(self).pub_wf(), final(self).reader == old(self).reader, final(self).raw == old(self).raw,
+    //@| loop 0: invariant self.pub_wf(), self.reader == old(self).reader, self.raw == old(self).raw, self.token == old(self).token,
+    //@|         has_attr ==> self.number_attribute_returned < self.attribute@.len(),
+    //@|     decreases (if has_attr { 1int } else { 0int }) + self.attribute@.len() - self.number_attribute_returned,
+
+    //@@ fn src/html/mod.rs :: impl Tokenizer / fn err -> r
+    //@| ensures r.is_some() == self.err.is_some(),
+
+    //@@ fn src/html/mod.rs :: impl Tokenizer / fn allow_cdata
+    //@| requires old(self).wf(),
+    //@| ensures final(self).wf(), final(self).reader == old(self).reader, final(self).raw == old(self).raw, final(self).err.is_some() == old(self).err.is_some(),
+
+    //@@ fn src/html/mod.rs :: impl Tokenizer / fn new -> r
+    //@| ensures r.wf(), r.reader == reader, r.raw.start == 0, r.raw.end == 0, r.err.is_none(),
+    //@| entry proof { lit_empty(); }
+
+    // new_fragment is NOT under contract: `match` on str patterns and `String::clone_from` are outside Verus' subset.
+    // Assumed contract (trusted, listed): it builds the initial state; only `Tokenizer::new` (empty context) calls it in /repo.
+    //@@ fn src/html/mod.rs :: impl Tokenizer / fn new_fragment -> r
+    //@| opt external_body
+    //@| ensures r.wf(), r.reader == reader, r.raw.start == 0, r.raw.end == 0, r.err.is_none(),
+}
+
+// ---------------------------------------------------------------- property lemma of C16 (client proof; uses ONLY the contracts above)
+// Tokenising any byte string: the raw spans in order, followed by the unread remainder, reproduce the input;
+// at most one non-error token per input byte; the call sequence terminates.
+pub fn c16_lossless_total(input: Vec<u8>) -> (out: (Vec<u8>, usize, usize))
+    requires input.len() < usize::MAX,
+    ensures
+        out.0@ + input@.subrange(out.1 as int, input.len() as int) == input@,   // concat(raw spans) ++ remainder == input
+        out.1 <= input.len(),
+        out.2 <= input.len() + 1,                                                // #tokens (incl. the final error token) <= |b| + 1
+{
+    let ghost b = input@;
+    let mut t = Tokenizer::new(input);
+    let mut acc: Vec<u8> = Vec::new();
+    let mut n: usize = 0;
+    let mut done = false;
+    while !done
+        invariant t.wf(), t.reader@ == b, acc@ == b.subrange(0, t.raw.end as int), !done ==> n <= t.raw.end,
+            done ==> n <= t.raw.end + 1, t.raw.end <= b.len(), b.len() < usize::MAX,
+        decreases (b.len() - t.raw.end) + (if done { 0int } else { 1int }),
+    {
+        let ghost before = t.raw.end;
+        let r = t.next();
+        let mut raw = t.raw();
+        proof { assert(b.subrange(0, before as int) + b.subrange(before as int, t.raw.end as int) =~= b.subrange(0, t.raw.end as int)); }
+        acc.append(&mut raw);
+        match r {
+            Ok(tok) => {
+                match tok {
+                    ErrorToken => { done = true; }
+                    _ => {}
+                }
+                n = n + 1;
+            }
+            Err(_) => { done = true; }
+        }
+    }
+    proof { assert(b.subrange(0, t.raw.end as int) + b.subrange(t.raw.end as int, b.len() as int) =~= b); }
+    (acc, t.raw.end, n)
 }
 
 //@@ strlits
